@@ -32,4 +32,11 @@ META = {
         'note': 'Trusted: Lean kernel, standard axioms, the go/ast translator (fail-closed), sync.RWMutex semantics as modelled; only symHashTable/strTable are covered; implementation schedules are sampled.',
         'technique': 'Lean 4 proof (invariant over all interleavings of an RWMutex LTS) over lock sequences regenerated from source + race-detector soak',
     },
+    'C04': {
+        'text': 'Theorems for every callee, element list, iterator ending, digest and argument list: each list/scalar/reduce context of both middleware stacks equals its documented per-element rule '
+                '(map + first-error stop + nil dropping/keeping/substitution + digest; left fold from the chain argument, accumulator kept by ~$); a property call equals the equivalent literal call in every context '
+                'except the lonely reduce chain (shown to differ); variable calls run the literal stack. Tied to the two chain files by an exhaustive context x form x callee-table sweep of real programs.',
+        'note': PROOF_NOTE + 'callee/iterator/digest are parameters; non-array receivers are covered by an implementation-side agreement oracle.',
+        'technique': 'Lean 4 proof (induction over the element list, both middleware stacks vs map/filter/fold specs) + exhaustive context x form x callee-table correspondence',
+    },
 }
